@@ -44,6 +44,22 @@ MODULES = {
             "graphs": {"fs128": {"module": "MC_Lfo", "cfg": "Graph_Lfo.cfg", "target": "lfo"}}},
 }
 
+# the generic phase accumulator on its own, one trace configuration per width (the widths are
+# constants of the specification); the four smallest are also enumerated by TLC and replayed
+PACC_WIDTHS = [(4, 2), (6, 3), (5, 5), (5, 0), (8, 3), (12, 12), (16, 4), (24, 8), (24, 10), (28, 10)]
+for _w, _i in PACC_WIDTHS:
+    MODULES[f"pacc{_w}_{_i}"] = {
+        "trace_spec": "Trace_PhaseAcc", "trace_cfg": f"Trace_PhaseAcc_{_w}_{_i}.cfg",
+        "graphs": ({"all": {"module": "MC_PhaseAcc", "cfg": f"Graph_PhaseAcc_{_w}_{_i}.cfg", "target": f"pacc{_w}_{_i}"}}
+                   if _w <= 6 else {}),
+    }
+_PACC_MC = [("pacc-4-2", "MC_PhaseAcc", "MC_PhaseAcc_4_2.cfg", QT), ("pacc-5-5", "MC_PhaseAcc", "MC_PhaseAcc_5_5.cfg", QT),
+            ("pacc-5-0", "MC_PhaseAcc", "MC_PhaseAcc_5_0.cfg", QT), ("pacc-6-3", "MC_PhaseAcc", "MC_PhaseAcc_6_3.cfg", T)]
+_PACC_GR = [("pacc4_2", "all", QT), ("pacc6_3", "all", QT), ("pacc5_5", "all", QT), ("pacc5_0", "all", QT)]
+_PACC_TR_ALL = [(f"pacc{_w}_{_i}", "ops", QT) for _w, _i in PACC_WIDTHS] + \
+               [(f"pacc{_w}_{_i}", "cycles", QT) for _w, _i in [(8, 3), (16, 4), (24, 10)]]
+_PACC_TR_FEW = [("pacc24_10", "ops", QT), ("pacc24_8", "ops", QT), ("pacc16_4", "ops", QT), ("pacc24_10", "cycles", QT)]
+
 _VOICE_MC = ("voice", "MC_Voice", "MC_Voice.cfg", QT)
 _MIDI_MC = [
     ("midi-notes", "MC_Midi", "MC_Midi_notes.cfg", QT),
@@ -157,10 +173,24 @@ PROPS.update({
     },
 })
 
+# the accumulator on its own (MC_PhaseAcc / Trace_PhaseAcc): phase advance, increment, positioning and the
+# roll-over latch belong to C11 (and the latch to C02, which ends a phase on it); the index / fraction
+# split and the ramp are what C10, C12 and C03 read the tables with
+PROPS["C11"]["mc"] = PROPS["C11"]["mc"] + _PACC_MC
+PROPS["C11"]["graphs"] = PROPS["C11"]["graphs"] + _PACC_GR
+PROPS["C11"]["traces"] = PROPS["C11"]["traces"] + _PACC_TR_ALL
+PROPS["C02"]["mc"] = PROPS["C02"]["mc"] + _PACC_MC
+PROPS["C02"]["graphs"] = PROPS["C02"]["graphs"] + _PACC_GR[:2]
+PROPS["C02"]["traces"] = PROPS["C02"]["traces"] + _PACC_TR_FEW
+for _p in ("C10", "C12", "C03"):
+    PROPS[_p]["graphs"] = PROPS[_p].get("graphs", []) + _PACC_GR
+    PROPS[_p]["traces"] = PROPS[_p]["traces"] + _PACC_TR_FEW
+PROPS["C17"]["traces"] = PROPS["C17"]["traces"] + [("pacc24_10", "ops", QT), ("pacc28_10", "ops", QT), ("pacc4_2", "ops", QT)]
+
 # unbounded roll-over law of the 24-bit accumulator (Apalache, inductive invariant)
 _PA_IND = ("phaseacc-ind", "apalache/PhaseAccInd.tla",
            [["--init=Init", "--inv=IndInv", "--length=0"], ["--init=IndInit", "--inv=IndInv", "--length=1"]], QT)
 PROPS["C02"]["apalache"] = [_PA_IND]
 PROPS["C17"]["apalache"] = [_PA_IND]
 
-HOOK_COMMITS = ["36838b7"]
+HOOK_COMMITS = ["36838b7", "ded5069"]
